@@ -18,7 +18,7 @@ EXPLANATION = (
     "from the evaluator. Not decided: equality of values before/after (runtime)."
     " (R5, re-keyed) each site that stores the result of the shallow detach helper is keyed by the provenance of what it hands to the helper (callees feeding it and number of shallow clones of a variable's cell content that reach it by plain copies; private helpers producing the value are expanded), so a new aliasing path is a new violation rather than hidden behind the known one; (R3) also accepts validate-all-then-insert-all over the same sequence; (R7) every path from FunctionScope::enter to a return of the caller restores the caller's symbol table, plan and environment (Drop of the guard or an explicit exit)."
     " (R8) operand roles of the assignment compilers: the value evaluated from the statement's right-hand side reaches the kernel's source field and the looked-up variable its sink field, on the native and on the fallback (Value-level) path."
-    " Refactoring-robust view: R2-R5 run on the evaluator's body with the private helpers of its own crate that reach a symbol-table primitive expanded in place (lib/inline.py), "
+    " Refactoring-robust view: R2-R5 run on the evaluator's body with the private helpers of its own crate that reach a symbol-table primitive expanded in place (lib/mirinline.py), "
     "follow a tested value through named locals / negations / dropped temporaries to the switch that tests it, classify Ok/Err exits by value flow, and prune paths that contradict "
     "a Result/Option variant built on the path (`helper(..)?` after `return Err(..)` inside the helper); R6 is a call-graph rule over the closures handed to catch_unwind."
     ' (R9) a failing indexed assignment changes nothing: every assignment kernel converts its 1-based index with the overflow-checked `ix - 1` (index 0 is rejected), never with a saturating / wrapping / clamped form.'
